@@ -167,6 +167,10 @@ def run(ctx, args):
         "sync.Mutex is a correct mutex; the Go memory model is not modelled (the lock-free variant is modelled with "
         "sequentially consistent statements)",
     ]
+    if ctx.tier == "thorough":
+        # system level: the CoSi exchange of a real multi-node network (spec/Net/Trace_Cosi.tla, monitor C12)
+        import cosinet
+        cosinet.run_cosinet(ctx)
 
 
 def kernel_layer(ctx, d, rng, quick, golock):
